@@ -66,6 +66,10 @@ let () =
   try while true do
     let line = input_line stdin in
     match String.split_on_char ' ' line with
+    | ["RFBAD"; k; _] ->
+        (* a copy of an issued key with an altered signature: the ideal MAC rejects it; nothing changes (C08/C10/C17) *)
+        if !s.st_usks = [] then Printf.printf "NOIDX|%s\n" (dump_msk !s.st_msk)
+        else Printf.printf "ERR|%s|%s\n" (dump_msk !s.st_msk) (dump_usk (nth !s.st_usks (idx k (List.length !s.st_usks))))
     | ["SNAP"] -> snaps := !snaps @ [!s.st_msk]; p1 ObOk
     | ["REST"; k] ->
         if !snaps = [] then Printf.printf "NOIDX|%s\n" (dump_msk !s.st_msk)
